@@ -1184,3 +1184,42 @@ func init() {
 		externals[k] = v
 	}
 }
+
+// ---- math/rand: every outcome of a random pick is explored (bounded arity)
+
+func (i *interpreter) randPick(n int64, what string) int64 {
+	if n <= 1 {
+		return 0
+	}
+	if n > 16 {
+		// large ranges only matter for position/jitter decisions: take the
+		// extremes and the middle
+		return []int64{0, n / 2, n - 1}[i.choose(3, "rand:"+what)]
+	}
+	return int64(i.choose(int(n), "rand:"+what))
+}
+
+func init() {
+	shuffle := func(fr *frame, n int, swap value) {
+		for k := n - 1; k > 0; k-- {
+			j := int(fr.i.randPick(int64(k+1), "shuffle"))
+			call(fr.i, fr, token.NoPos, swap, []value{k, j})
+		}
+	}
+	for k, v := range map[string]externalFn{
+		"math/rand.Shuffle": func(fr *frame, a []value) value { shuffle(fr, a[0].(int), a[1]); return nil },
+		"(*math/rand.Rand).Shuffle": func(fr *frame, a []value) value { shuffle(fr, a[1].(int), a[2]); return nil },
+		"math/rand.Intn":   func(fr *frame, a []value) value { return int(fr.i.randPick(int64(a[0].(int)), "Intn")) },
+		"math/rand.Int31n": func(fr *frame, a []value) value { return int32(fr.i.randPick(int64(a[0].(int32)), "Int31n")) },
+		"math/rand.Int63n": func(fr *frame, a []value) value { return fr.i.randPick(a[0].(int64), "Int63n") },
+		"(*math/rand.Rand).Intn": func(fr *frame, a []value) value { return int(fr.i.randPick(int64(a[1].(int)), "Intn")) },
+		"(*math/rand.Rand).Int31n": func(fr *frame, a []value) value {
+			return int32(fr.i.randPick(int64(a[1].(int32)), "Int31n"))
+		},
+		"(*math/rand.Rand).Int63n": func(fr *frame, a []value) value { return fr.i.randPick(a[1].(int64), "Int63n") },
+		"math/rand.Int63":  func(fr *frame, a []value) value { return int64(0) },
+		"math/rand.Uint32": func(fr *frame, a []value) value { return uint32(0) },
+	} {
+		externals[k] = v
+	}
+}
